@@ -211,7 +211,7 @@ def rule4_leaf(ctx, v):
                        'key k = base + i is matched with slot i', loc=vl[0].loc)
             ctx.ob('C11.4', 'slot belongs to the node walked', same_value(f, sap.root, pidx.get('n')), 'slots of node n', loc=vl[0].loc)
             clr = [s for s in f.order if s.op == 'store' and f.field(s) == 'myth_tls_entry.value' and
-                   isinstance(s.ops[0], dict) and s.ops[0].get('null') and f.ap(s.ops[1]).key() == sap.key()]
+                   isinstance(s.ops[0], dict) and s.ops[0].get('null') and lib.same_addr(f, s.ops[1], vl[0].ops[0])]
             ctx.ob('C11.4', 'slot cleared before the call', len(clr) >= 1 and any(f.dominates_f(s, c) for s in clr) and
                    all(f.dominates_f(vl[0], s) for s in clr), 'the slot is emptied after its value was read and before the '
                    'destructor runs (a destructor is called at most once per stored value)', loc=c.loc)
